@@ -24,6 +24,9 @@ use tokio::io::{AsyncReadExt, AsyncWriteExt};
 use tokio::net::{TcpListener, TcpStream};
 use vh::{Ctx, Rng, fnv64, mix64};
 
+#[path = "c13/ext.rs"]
+mod ext;
+
 // ------------------------------------------------------------------ endpoints / documents
 
 #[derive(Clone, Copy, Debug, PartialEq, Eq, Hash)]
@@ -33,7 +36,10 @@ enum EpClass {
     Bgdl,
     Summary,
     Certs,
+    Ocsp,
 }
+
+const ALL_CLASSES: [EpClass; 6] = [EpClass::Versions, EpClass::Cdns, EpClass::Bgdl, EpClass::Summary, EpClass::Certs, EpClass::Ocsp];
 
 impl EpClass {
     fn endpoint(self) -> &'static str {
@@ -43,10 +49,35 @@ impl EpClass {
             EpClass::Bgdl => "v1/products/wow/bgdl",
             EpClass::Summary => "v1/summary",
             EpClass::Certs => "v1/certs/5168ff90af0207753cccd9656462a212b859723b",
+            EpClass::Ocsp => "v1/ocsp/5168ff90af0207753cccd9656462a212b859723b",
+        }
+    }
+    /// Endpoint string of the class in variant `v` (all variants are well-formed endpoints of the
+    /// same class: other product names with every admitted character kind, the TACT spelling
+    /// without the `v1/products/` prefix, other certificate hashes). Variant 0 = `endpoint()`.
+    fn endpoint_variant(self, v: u8) -> String {
+        let kind = self.name();
+        match self {
+            EpClass::Versions | EpClass::Cdns | EpClass::Bgdl => match v % 5 {
+                0 => self.endpoint().to_string(),
+                1 => format!("v1/products/wow_classic_era/{kind}"),
+                2 => format!("v1/products/pro-dev.2/{kind}"),
+                3 => format!("wowt/{kind}"),
+                _ => format!("v1/products/WoW9/{kind}"),
+            },
+            EpClass::Summary => self.endpoint().to_string(),
+            EpClass::Certs => match v % 2 {
+                0 => self.endpoint().to_string(),
+                _ => "v1/certs/782a8a710b950421127250a3e91b751ca356e202".to_string(),
+            },
+            EpClass::Ocsp => match v % 2 {
+                0 => self.endpoint().to_string(),
+                _ => "v1/ocsp/782a8a710b950421127250a3e91b751ca356e202".to_string(),
+            },
         }
     }
     fn tcp_only(self) -> bool {
-        matches!(self, EpClass::Summary | EpClass::Certs)
+        matches!(self, EpClass::Summary | EpClass::Certs | EpClass::Ocsp)
     }
     fn name(self) -> &'static str {
         match self {
@@ -55,10 +86,11 @@ impl EpClass {
             EpClass::Bgdl => "bgdl",
             EpClass::Summary => "summary",
             EpClass::Certs => "certs",
+            EpClass::Ocsp => "ocsp",
         }
     }
     fn parse(s: &str) -> Option<Self> {
-        [EpClass::Versions, EpClass::Cdns, EpClass::Bgdl, EpClass::Summary, EpClass::Certs].into_iter().find(|c| c.name() == s)
+        ALL_CLASSES.into_iter().find(|c| c.name() == s)
     }
     fn disposition(self) -> &'static str {
         match self {
@@ -67,6 +99,7 @@ impl EpClass {
             EpClass::Bgdl => "bgdl",
             EpClass::Summary => "summary",
             EpClass::Certs => "cert",
+            EpClass::Ocsp => "ocsp",
         }
     }
 }
@@ -141,7 +174,7 @@ fn bpsv_text(class: EpClass, origin: Slot, uniq: u64, generation: u32, shape: Sh
                 lines.push(format!("{region}|tpr/wow|{tag}.example.net level3.example.net|http://{tag}.example.net/?maxhosts=4 https://level3.example.net/?fallback=1|tpr/configs/data"));
             }
         }
-        EpClass::Summary | EpClass::Certs => {
+        EpClass::Summary | EpClass::Certs | EpClass::Ocsp => {
             lines.push("Product!STRING:0|Seqn!DEC:7|Flags!STRING:0".into());
             lines.push(format!("## seqn = {}", 3000 + (uniq % 1_000_000) * 4 + u64::from(generation)));
             for (i, p) in ["wow", "wowt", "wow_classic", "agent", "bna", "d3", "pro"].iter().take(rows.max(1)).enumerate() {
@@ -168,33 +201,97 @@ fn bpsv_text(class: EpClass, origin: Slot, uniq: u64, generation: u32, shape: Sh
     out
 }
 
-/// V1 MIME wrapping in the layout of the live service: multipart/alternative,
-/// data part + signature part, SHA-256 checksum epilogue over everything before it.
-fn v1_mime(bpsv: &str, class: EpClass, uniq: u64, crlf: bool, good_checksum: bool) -> Vec<u8> {
+/// Layout variants of a V1 MIME response. `Std` is the layout of the live service; the others vary
+/// what the statement leaves to the server: multipart subtype, presence / termination of the checksum
+/// epilogue, encoding of the signature part, disposition of the data part. Whether a variant is a
+/// well-formed answer is decided by the reference parse of the unsplit bytes (see `ref_tcp`), the
+/// `self_check` pins the expectation used when the matrix is built.
+#[derive(Clone, Copy, Debug, PartialEq, Eq, Hash)]
+enum V1Var {
+    Std,
+    BadSum,
+    /// multipart/mixed instead of multipart/alternative
+    Mixed,
+    /// no checksum epilogue at all
+    NoChecksum,
+    /// checksum line is the last thing in the stream, without a line terminator
+    ChecksumNoNewline,
+    /// signature part declared text/plain, valid base64
+    SigText,
+    /// signature part declared text/plain, not base64
+    SigTextRaw,
+    /// no signature part
+    NoSignature,
+    /// a `Checksum:` line that is not 64 hex digits (not a checksum: the epilogue is ignored)
+    ShortChecksum,
+    /// the data part carries a disposition that names no endpoint kind (`inline`): the text body is the answer
+    InlineDisposition,
+    /// data part is not BPSV
+    DataNotBpsv,
+    /// there is only a (binary) signature part
+    SignatureOnly,
+}
+
+const V1_GOOD_VARIANTS: [V1Var; 8] = [V1Var::Mixed, V1Var::NoChecksum, V1Var::ChecksumNoNewline, V1Var::SigText, V1Var::SigTextRaw, V1Var::NoSignature, V1Var::ShortChecksum, V1Var::InlineDisposition];
+const V1_BAD_VARIANTS: [V1Var; 2] = [V1Var::DataNotBpsv, V1Var::SignatureOnly];
+
+fn v1_mime_x(bpsv: &str, class: EpClass, uniq: u64, crlf: bool, var: V1Var) -> Vec<u8> {
     let nl = if crlf { "\r\n" } else { "\n" };
     let boundary = format!("cascverif{uniq:x}");
+    let subtype = if var == V1Var::Mixed { "mixed" } else { "alternative" };
     let mut m = String::new();
     m.push_str(&format!("MIME-Version: 1.0{nl}"));
-    m.push_str(&format!("Content-Type: multipart/alternative; boundary=\"{boundary}\"{nl}"));
+    m.push_str(&format!("Content-Type: multipart/{subtype}; boundary=\"{boundary}\"{nl}"));
     m.push_str(&format!("From: mock/{uniq}{nl}{nl}"));
-    m.push_str(&format!("--{boundary}{nl}Content-Type: text/plain{nl}Content-Disposition: {}{nl}{nl}", class.disposition()));
-    m.push_str(bpsv);
-    if !bpsv.ends_with('\n') {
-        m.push_str(nl);
+    if var != V1Var::SignatureOnly {
+        m.push_str(&format!("--{boundary}{nl}Content-Type: text/plain{nl}Content-Disposition: {}{nl}{nl}", if var == V1Var::InlineDisposition { "inline" } else { class.disposition() }));
+        if var == V1Var::DataNotBpsv {
+            m.push_str(&format!("this part is not a version table ({uniq}){nl}second line{nl}"));
+        } else {
+            m.push_str(bpsv);
+            if !bpsv.ends_with('\n') {
+                m.push_str(nl);
+            }
+        }
     }
-    m.push_str(&format!("--{boundary}{nl}Content-Type: application/octet-stream{nl}Content-Disposition: signature{nl}{nl}"));
-    m.push_str(&format!("MIIB{}AQID{nl}", hex16(uniq)));
+    match var {
+        V1Var::NoSignature => {}
+        V1Var::SigText => {
+            m.push_str(&format!("--{boundary}{nl}Content-Type: text/plain{nl}Content-Disposition: signature{nl}{nl}"));
+            m.push_str(&format!("TUlJ{}QUJDREVG{nl}", hex16(uniq))); // 44 characters of the base64 alphabet
+        }
+        V1Var::SigTextRaw => {
+            m.push_str(&format!("--{boundary}{nl}Content-Type: text/plain{nl}Content-Disposition: signature{nl}{nl}"));
+            m.push_str(&format!("*** not base64 / {} ***{nl}", hex16(uniq)));
+        }
+        _ => {
+            m.push_str(&format!("--{boundary}{nl}Content-Type: application/octet-stream{nl}Content-Disposition: signature{nl}{nl}"));
+            m.push_str(&format!("MIIB{}AQID{nl}", hex16(uniq)));
+        }
+    }
     m.push_str(&format!("--{boundary}--{nl}"));
     let mut h = Sha256::new();
     h.update(m.as_bytes());
     let mut sum = format!("{:x}", h.finalize());
-    if !good_checksum {
-        // flip one hex digit
-        let first = sum.remove(0);
-        sum.insert(0, if first == '0' { '1' } else { '0' });
+    match var {
+        V1Var::BadSum => {
+            // flip one hex digit
+            let first = sum.remove(0);
+            sum.insert(0, if first == '0' { '1' } else { '0' });
+            m.push_str(&format!("Checksum: {sum}{nl}"));
+        }
+        V1Var::NoChecksum => {}
+        V1Var::ChecksumNoNewline => m.push_str(&format!("Checksum: {sum}")),
+        V1Var::ShortChecksum => m.push_str(&format!("Checksum: {}{nl}", &sum[..40])),
+        _ => m.push_str(&format!("Checksum: {sum}{nl}")),
     }
-    m.push_str(&format!("Checksum: {sum}{nl}"));
     m.into_bytes()
+}
+
+/// V1 MIME wrapping in the layout of the live service: multipart/alternative,
+/// data part + signature part, SHA-256 checksum epilogue over everything before it.
+fn v1_mime(bpsv: &str, class: EpClass, uniq: u64, crlf: bool, good_checksum: bool) -> Vec<u8> {
+    v1_mime_x(bpsv, class, uniq, crlf, if good_checksum { V1Var::Std } else { V1Var::BadSum })
 }
 
 fn malformed_body(variant: u8, uniq: u64) -> Vec<u8> {
@@ -245,6 +342,8 @@ enum HttpBeh {
     ResetMidBody,
     Stall,
     StallMidBody,
+    /// 200 whose body framing is broken: 0 = invalid chunked encoding, 1 = `Content-Encoding: gzip` over bytes that are not gzip
+    Garbled(u8),
 }
 
 #[derive(Clone, Copy, Debug, PartialEq, Eq, Hash)]
@@ -268,6 +367,7 @@ impl HttpBeh {
             HttpBeh::ResetMidBody => "reset-mid-body".into(),
             HttpBeh::Stall => "stall".into(),
             HttpBeh::StallMidBody => "stall-mid-body".into(),
+            HttpBeh::Garbled(v) => format!("garbled{v}"),
         }
     }
     fn parse(s: &str) -> Option<Self> {
@@ -283,6 +383,8 @@ impl HttpBeh {
                     HttpBeh::Valid(Shape::parse(sh)?)
                 } else if let Some(v) = s.strip_prefix("malformed") {
                     HttpBeh::Malformed(v.parse().ok()?)
+                } else if let Some(v) = s.strip_prefix("garbled") {
+                    HttpBeh::Garbled(v.parse().ok()?)
                 } else if let Some(rest) = s.strip_prefix('s') {
                     if let Some((c, ra)) = rest.split_once("ra") {
                         HttpBeh::Status(c.parse().ok()?, Some(ra.parse().ok()?))
@@ -303,7 +405,9 @@ impl HttpBeh {
             HttpBeh::Status(429, _) => Class::Transient,
             HttpBeh::Status(c, _) if (500..600).contains(c) => Class::Transient,
             HttpBeh::Status(_, _) => Class::Definitive,
-            HttpBeh::Malformed(_) => Class::Malformed,
+            // broken framing of a 200 response: not a well-formed answer; the statement does not say whether
+            // it counts as transient, so (as for a malformed body) stopping and moving on are both accepted
+            HttpBeh::Malformed(_) | HttpBeh::Garbled(_) => Class::Malformed,
             HttpBeh::Refused | HttpBeh::CloseBeforeHeaders | HttpBeh::CloseMidBody | HttpBeh::ResetMidBody | HttpBeh::Stall | HttpBeh::StallMidBody => Class::Transient,
         }
     }
@@ -315,6 +419,7 @@ impl HttpBeh {
             HttpBeh::Status(c, _) if (500..600).contains(c) => "5xx".into(),
             HttpBeh::Status(_, _) => "4xx".into(),
             HttpBeh::Malformed(_) => "malformed".into(),
+            HttpBeh::Garbled(_) => "garbled-framing".into(),
             HttpBeh::Stall | HttpBeh::StallMidBody => "stall".into(),
             other => other.code(),
         }
@@ -329,8 +434,12 @@ enum TcpBeh {
     ValidV2(Shape),
     /// V1 MIME + good checksum; (crlf, shape of the embedded BPSV)
     ValidV1(bool, Shape),
+    /// V1 MIME in another layout the reference accepts: (crlf, index into V1_GOOD_VARIANTS)
+    V1Layout(bool, u8),
     BadChecksum,
     Malformed(u8),
+    /// V1 MIME envelope without a usable data part (index into V1_BAD_VARIANTS)
+    MalformedV1(u8),
     Refused,
     /// connection closed (FIN) in the middle of the response
     CloseMid,
@@ -344,8 +453,10 @@ impl TcpBeh {
         match self {
             TcpBeh::ValidV2(s) => format!("v2:{}", s.name()),
             TcpBeh::ValidV1(crlf, s) => format!("v1-{}:{}", if *crlf { "crlf" } else { "lf" }, s.name()),
+            TcpBeh::V1Layout(crlf, v) => format!("v1x-{}:{}", if *crlf { "crlf" } else { "lf" }, v),
             TcpBeh::BadChecksum => "bad-checksum".into(),
             TcpBeh::Malformed(v) => format!("malformed{v}"),
+            TcpBeh::MalformedV1(v) => format!("malformed-v1-{v}"),
             TcpBeh::Refused => "refused".into(),
             TcpBeh::CloseMid => "closed-mid-response".into(),
             TcpBeh::ResetMid => "reset-mid-response".into(),
@@ -366,6 +477,12 @@ impl TcpBeh {
                     TcpBeh::ValidV1(true, Shape::parse(sh)?)
                 } else if let Some(sh) = s.strip_prefix("v1-lf:") {
                     TcpBeh::ValidV1(false, Shape::parse(sh)?)
+                } else if let Some(v) = s.strip_prefix("v1x-crlf:") {
+                    TcpBeh::V1Layout(true, v.parse().ok()?)
+                } else if let Some(v) = s.strip_prefix("v1x-lf:") {
+                    TcpBeh::V1Layout(false, v.parse().ok()?)
+                } else if let Some(v) = s.strip_prefix("malformed-v1-") {
+                    TcpBeh::MalformedV1(v.parse().ok()?)
                 } else if let Some(v) = s.strip_prefix("malformed") {
                     TcpBeh::Malformed(v.parse().ok()?)
                 } else {
@@ -376,8 +493,8 @@ impl TcpBeh {
     }
     fn class(&self) -> Class {
         match self {
-            TcpBeh::ValidV2(_) | TcpBeh::ValidV1(_, _) => Class::Good,
-            TcpBeh::BadChecksum | TcpBeh::Malformed(_) => Class::Malformed,
+            TcpBeh::ValidV2(_) | TcpBeh::ValidV1(_, _) | TcpBeh::V1Layout(_, _) => Class::Good,
+            TcpBeh::BadChecksum | TcpBeh::Malformed(_) | TcpBeh::MalformedV1(_) => Class::Malformed,
             TcpBeh::Refused | TcpBeh::CloseMid | TcpBeh::ResetMid | TcpBeh::Stall => Class::Transient,
         }
     }
@@ -385,7 +502,9 @@ impl TcpBeh {
         match self {
             TcpBeh::ValidV2(_) => "valid-v2".into(),
             TcpBeh::ValidV1(_, _) => "valid-v1".into(),
+            TcpBeh::V1Layout(_, _) => "valid-v1-layout".into(),
             TcpBeh::Malformed(_) => "malformed".into(),
+            TcpBeh::MalformedV1(_) => "malformed-v1".into(),
             other => other.code(),
         }
     }
@@ -396,8 +515,10 @@ fn tcp_payload(beh: &TcpBeh, class: EpClass, uniq: u64, generation: u32, rows: u
     match beh {
         TcpBeh::ValidV2(shape) => bpsv_text(class, Slot::Tcp, uniq, generation, *shape, rows).into_bytes(),
         TcpBeh::ValidV1(crlf, shape) => v1_mime(&bpsv_text(class, Slot::Tcp, uniq, generation, *shape, rows), class, uniq, *crlf, true),
+        TcpBeh::V1Layout(crlf, v) => v1_mime_x(&bpsv_text(class, Slot::Tcp, uniq, generation, Shape::Plain, rows), class, uniq, *crlf, V1_GOOD_VARIANTS[*v as usize % V1_GOOD_VARIANTS.len()]),
         TcpBeh::BadChecksum => v1_mime(&bpsv_text(class, Slot::Tcp, uniq, generation, Shape::Plain, rows), class, uniq, true, false),
         TcpBeh::Malformed(v) => malformed_body(*v, uniq),
+        TcpBeh::MalformedV1(v) => v1_mime_x(&bpsv_text(class, Slot::Tcp, uniq, generation, Shape::Plain, rows), class, uniq, *v % 2 == 0, V1_BAD_VARIANTS[*v as usize % V1_BAD_VARIANTS.len()]),
         // truncated inside the type token of the header line: not a well-formed answer
         TcpBeh::CloseMid | TcpBeh::ResetMid | TcpBeh::Stall => {
             let full = bpsv_text(class, Slot::Tcp, uniq, generation, Shape::Plain, rows);
@@ -578,6 +699,16 @@ async fn serve_http(mut s: TcpStream, slot: Slot, script: HttpScript, log: Log) 
         }
         HttpBeh::Stall => std::future::pending::<()>().await,
         HttpBeh::Refused => {}
+        HttpBeh::Garbled(v) => {
+            if v % 2 == 0 {
+                let _ = s.write_all(b"HTTP/1.1 200 Mock\r\nContent-Type: text/plain\r\nTransfer-Encoding: chunked\r\nConnection: close\r\n\r\nZZ;not-a-size\r\n").await;
+                let _ = s.write_all(&script.body).await;
+            } else {
+                let _ = s.write_all(format!("HTTP/1.1 200 Mock\r\nContent-Type: text/plain\r\nContent-Encoding: gzip\r\nContent-Length: {}\r\nConnection: close\r\n\r\n", script.body.len()).as_bytes()).await;
+                let _ = s.write_all(&script.body).await;
+            }
+            let _ = s.shutdown().await;
+        }
     }
 }
 
@@ -636,6 +767,11 @@ async fn start_http(slot: Slot, script: Arc<Mutex<HttpScript>>, log: Log) -> Opt
         return Some(Mock { port: r.port, task: None, _reserved: Some(r) });
     }
     let listener = TcpListener::bind("127.0.0.1:0").await.ok()?;
+    start_http_on(listener, slot, script, log)
+}
+
+/// HTTP mock on a listener that is already bound (the port had to be known before the runtime existed).
+fn start_http_on(listener: TcpListener, slot: Slot, script: Arc<Mutex<HttpScript>>, log: Log) -> Option<Mock> {
     let port = listener.local_addr().ok()?.port();
     let task = tokio::spawn(async move {
         let mut set = tokio::task::JoinSet::new();
@@ -661,6 +797,10 @@ async fn start_tcp(script: Arc<Mutex<TcpScript>>, log: Log, segments_written: Ar
         return Some(Mock { port: r.port, task: None, _reserved: Some(r) });
     }
     let listener = TcpListener::bind("127.0.0.1:0").await.ok()?;
+    start_tcp_on(listener, script, log, segments_written)
+}
+
+fn start_tcp_on(listener: TcpListener, script: Arc<Mutex<TcpScript>>, log: Log, segments_written: Arc<AtomicU64>) -> Option<Mock> {
     let port = listener.local_addr().ok()?.port();
     let task = tokio::spawn(async move {
         let mut set = tokio::task::JoinSet::new();
@@ -681,6 +821,30 @@ async fn start_tcp(script: Arc<Mutex<TcpScript>>, log: Log, segments_written: Ar
 
 // ------------------------------------------------------------------ scenarios
 
+/// Configuration dimensions of a scenario beyond the behaviours of the three endpoints.
+#[derive(Clone, Copy, Debug, PartialEq, Eq)]
+struct Opt {
+    /// permitted TACT protocols: bit 0 = HTTPS slot configured, bit 1 = HTTP slot configured
+    /// (an empty URL in `ClientConfig` removes the protocol from the chain)
+    permit: u8,
+    /// `ribbit_url` written as `host:port` instead of `tcp://host:port`
+    bare_ribbit: bool,
+    /// endpoint variant of the class (see `EpClass::endpoint_variant`)
+    epv: u8,
+    /// the cache already holds bytes that are not an answer under the endpoint's key
+    poison: bool,
+    /// segmentation runs: additionally call a `RibbitClient` entry point directly (1 query, 2 query_v1_mime, 3 query_raw, 4 query_tcp_only)
+    direct: u8,
+}
+
+impl Default for Opt {
+    fn default() -> Self {
+        Self { permit: 3, bare_ribbit: false, epv: 0, poison: false, direct: 0 }
+    }
+}
+
+const POISON: &[u8] = b"\x00\x01 these bytes are not a version answer \xff\xfe|##\n\n";
+
 #[derive(Clone, Debug)]
 struct Scenario {
     class: EpClass,
@@ -691,11 +855,13 @@ struct Scenario {
     uniq: u64,
     disk: bool,
     rows: usize,
+    opt: Opt,
 }
 
 impl Scenario {
     fn to_json(&self) -> Value {
-        json!({"kind": "matrix", "class": self.class.name(), "https": self.https.code(), "http": self.http.code(), "tcp": self.tcp.code(), "splits": self.splits, "uniq": self.uniq, "disk": self.disk, "rows": self.rows})
+        json!({"kind": "matrix", "class": self.class.name(), "https": self.https.code(), "http": self.http.code(), "tcp": self.tcp.code(), "splits": self.splits, "uniq": self.uniq, "disk": self.disk, "rows": self.rows,
+            "permit": self.opt.permit, "bare_ribbit": self.opt.bare_ribbit, "epv": self.opt.epv, "poison": self.opt.poison, "direct": self.opt.direct, "endpoint": self.endpoint()})
     }
     fn from_json(v: &Value) -> Option<Self> {
         Some(Self {
@@ -707,7 +873,24 @@ impl Scenario {
             uniq: v.get("uniq")?.as_u64()?,
             disk: v.get("disk")?.as_bool()?,
             rows: v.get("rows")?.as_u64()? as usize,
+            opt: Opt {
+                permit: v.get("permit").and_then(Value::as_u64).map_or(3, |n| n as u8),
+                bare_ribbit: v.get("bare_ribbit").and_then(Value::as_bool).unwrap_or(false),
+                epv: v.get("epv").and_then(Value::as_u64).map_or(0, |n| n as u8),
+                poison: v.get("poison").and_then(Value::as_bool).unwrap_or(false),
+                direct: v.get("direct").and_then(Value::as_u64).map_or(0, |n| n as u8),
+            },
         })
+    }
+    fn endpoint(&self) -> String {
+        self.class.endpoint_variant(self.opt.epv)
+    }
+    fn permits(&self, slot: Slot) -> bool {
+        match slot {
+            Slot::Https => self.opt.permit & 1 != 0,
+            Slot::Http => self.opt.permit & 2 != 0,
+            Slot::Tcp => true,
+        }
     }
     fn hash(&self) -> u64 {
         fnv64(self.to_json().to_string().replace(&format!("\"uniq\":{}", self.uniq), "").as_bytes())
@@ -783,6 +966,7 @@ struct Rig {
     cfg: ClientConfig,
     /// expected projection of the well-formed answer per slot (None when the slot has none)
     expect: [Option<String>; 3],
+    tcp_port: u16,
 }
 
 fn http_body(beh: &HttpBeh, class: EpClass, slot: Slot, uniq: u64, generation: u32, rows: usize) -> Vec<u8> {
@@ -790,7 +974,7 @@ fn http_body(beh: &HttpBeh, class: EpClass, slot: Slot, uniq: u64, generation: u
         HttpBeh::Valid(shape) => bpsv_text(class, slot, uniq, generation, *shape, rows).into_bytes(),
         HttpBeh::Malformed(v) => malformed_body(*v, uniq),
         // the body that is cut / stalled half-way is itself valid: only the transport fails
-        HttpBeh::CloseMidBody | HttpBeh::ResetMidBody | HttpBeh::StallMidBody => bpsv_text(class, slot, uniq, generation, Shape::Plain, rows.max(3)).into_bytes(),
+        HttpBeh::CloseMidBody | HttpBeh::ResetMidBody | HttpBeh::StallMidBody | HttpBeh::Garbled(_) => bpsv_text(class, slot, uniq, generation, Shape::Plain, rows.max(3)).into_bytes(),
         _ => Vec::new(),
     }
 }
@@ -821,13 +1005,14 @@ async fn build_rig(sc: &Scenario, ttl: Duration, cache_dir: Option<PathBuf>) -> 
     let m1 = start_http(Slot::Http, Arc::clone(&http_script), log.clone()).await.ok_or("harness: cannot bind http mock")?;
     let m2 = start_tcp(Arc::clone(&tcp_script), log.clone(), Arc::clone(&segments_written)).await.ok_or("harness: cannot bind tcp mock")?;
     let cfg = ClientConfig {
-        tact_https_url: format!("http://127.0.0.1:{}", m0.port),
-        tact_http_url: format!("http://127.0.0.1:{}", m1.port),
-        ribbit_url: format!("tcp://127.0.0.1:{}", m2.port),
+        tact_https_url: if sc.permits(Slot::Https) { format!("http://127.0.0.1:{}", m0.port) } else { String::new() },
+        tact_http_url: if sc.permits(Slot::Http) { format!("http://127.0.0.1:{}", m1.port) } else { String::new() },
+        ribbit_url: if sc.opt.bare_ribbit { format!("127.0.0.1:{}", m2.port) } else { format!("tcp://127.0.0.1:{}", m2.port) },
         cache_config: CacheConfig { cache_dir, ribbit_ttl: ttl, cdn_ttl: ttl, config_ttl: ttl, ..CacheConfig::default() },
         ..ClientConfig::default()
     };
-    Ok(Rig { log, https_script, http_script, tcp_script, _mocks: vec![m0, m1, m2], segments_written, cfg, expect })
+    let tcp_port = m2.port;
+    Ok(Rig { log, https_script, http_script, tcp_script, _mocks: vec![m0, m1, m2], segments_written, cfg, expect, tcp_port })
 }
 
 fn new_client(cfg: &ClientConfig) -> Result<Arc<RibbitTactClient>, String> {
@@ -844,18 +1029,79 @@ struct Observed {
     new_client_after_err: Option<QR>,
     segments_written: u64,
     elapsed_ms: u64,
+    /// result of the direct `RibbitClient` entry point (segmentation runs)
+    direct: Option<Direct>,
+    /// entries in the cache before the query / after it (ProtocolCache::len, None if it failed)
+    cache_len: (Option<usize>, Option<usize>),
+    /// regular files below the cache directory before / after the query (disk cache only)
+    cache_files: Option<(usize, usize)>,
+}
+
+/// What a direct `RibbitClient` entry point returned.
+#[derive(Clone, Debug, PartialEq, Eq)]
+enum Direct {
+    Doc(&'static str, QR),
+    Raw(Result<Vec<u8>, String>),
+    Text(Result<String, String>),
+    Panic(&'static str, String),
+}
+
+fn count_files(dir: &std::path::Path) -> usize {
+    let mut n = 0;
+    if let Ok(rd) = std::fs::read_dir(dir) {
+        for e in rd.flatten() {
+            let p = e.path();
+            if p.is_dir() { n += count_files(&p) } else { n += 1 }
+        }
+    }
+    n
+}
+
+async fn run_direct(which: u8, port: u16, bare: bool, endpoint: &str) -> Direct {
+    use cascette_protocol::client::RibbitClient;
+    let url = if bare { format!("127.0.0.1:{port}") } else { format!("tcp://127.0.0.1:{port}") };
+    let ep = endpoint.to_string();
+    let name: &'static str = match which { 1 => "query", 2 => "query_v1_mime", 3 => "query_raw", _ => "query_tcp_only" };
+    let h = tokio::spawn(async move {
+        let c = match RibbitClient::new(url) {
+            Ok(c) => c,
+            Err(e) => return Direct::Doc(name, QR::Err(format!("RibbitClient::new: {e:?}"))),
+        };
+        match which {
+            1 => Direct::Doc(name, match c.query(&ep).await { Ok(d) => QR::Ok(proj(&d)), Err(e) => QR::Err(format!("{e:?}")) }),
+            2 => Direct::Doc(name, match c.query_v1_mime(&ep).await { Ok(d) => QR::Ok(proj(&d)), Err(e) => QR::Err(format!("{e:?}")) }),
+            3 => Direct::Raw(c.query_raw(&ep).await.map_err(|e| format!("{e:?}"))),
+            _ => Direct::Text(c.query_tcp_only(&ep).await.map_err(|e| format!("{e:?}"))),
+        }
+    });
+    match h.await {
+        Ok(d) => d,
+        Err(je) if je.is_panic() => {
+            let p = je.into_panic();
+            Direct::Panic(name, p.downcast_ref::<&str>().map(|s| (*s).to_string()).or_else(|| p.downcast_ref::<String>().cloned()).unwrap_or_else(|| "<panic>".into()))
+        }
+        Err(_) => Direct::Doc(name, QR::Err("harness: task cancelled".into())),
+    }
 }
 
 async fn run_matrix_scenario(sc: &Scenario) -> Result<Observed, String> {
     let dir = if sc.disk { Some(tempfile::tempdir().map_err(|e| format!("harness: tempdir: {e}"))?) } else { None };
     let rig = build_rig(sc, Duration::from_secs(600), dir.as_ref().map(|d| d.path().to_path_buf())).await?;
     let client = new_client(&rig.cfg)?;
-    let ep = sc.class.endpoint();
+    let ep_string = sc.endpoint();
+    let ep = ep_string.as_str();
+    if sc.opt.poison {
+        client.cache().store_with_ttl(&format!("api/ribbit/{ep}"), POISON, Duration::from_secs(600)).map_err(|e| format!("harness: cannot pre-load the cache: {e}"))?;
+    }
+    let len_before = client.cache().len().ok();
+    let files_before = dir.as_ref().map(|d| count_files(d.path()));
     let t0 = Instant::now();
     let result = do_query(&client, ep).await;
     let elapsed_ms = t0.elapsed().as_millis() as u64;
     let log = rig.log.snapshot();
     let cached_after = cache_state(&client, ep);
+    let cache_len = (len_before, client.cache().len().ok());
+    let cache_files = files_before.zip(dir.as_ref().map(|d| count_files(d.path())));
     let mut second = None;
     let mut new_client_after_err = None;
     match &result {
@@ -871,9 +1117,10 @@ async fn run_matrix_scenario(sc: &Scenario) -> Result<Observed, String> {
         _ => {}
     }
     let segments_written = rig.segments_written.load(Ordering::Relaxed);
+    let direct = if sc.opt.direct != 0 { Some(run_direct(sc.opt.direct, rig.tcp_port, sc.opt.bare_ribbit, ep).await) } else { None };
     drop(client);
     drop(rig);
-    Ok(Observed { result, log, cached_after, second, new_client_after_err, segments_written, elapsed_ms })
+    Ok(Observed { result, log, cached_after, second, new_client_after_err, segments_written, elapsed_ms, direct, cache_len, cache_files })
 }
 
 // ------------------------------------------------------------------ oracle (decision table from the statement)
@@ -976,8 +1223,11 @@ fn judge_chain(eps: &[EpView], result: &QR) -> Verdict {
 fn views(sc: &Scenario, expect: &[Option<String>; 3], log: &[LogEntry]) -> Vec<EpView> {
     let first = |slot: Slot| log.iter().filter(|e| e.slot == slot).map(|e| e.seq).min();
     let mut v = Vec::new();
-    if !sc.class.tcp_only() {
+    // the chain consists of the PERMITTED protocols only (an empty URL removes a TACT protocol)
+    if !sc.class.tcp_only() && sc.permits(Slot::Https) {
         v.push(EpView { slot: Slot::Https, class: sc.https.class(), observable: sc.https != HttpBeh::Refused, first_seq: first(Slot::Https), expect: expect[0].clone(), family: sc.https.family(), code: sc.https.code() });
+    }
+    if !sc.class.tcp_only() && sc.permits(Slot::Http) {
         v.push(EpView { slot: Slot::Http, class: sc.http.class(), observable: sc.http != HttpBeh::Refused, first_seq: first(Slot::Http), expect: expect[1].clone(), family: sc.http.family(), code: sc.http.code() });
     }
     v.push(EpView { slot: Slot::Tcp, class: sc.tcp.class(), observable: sc.tcp != TcpBeh::Refused, first_seq: first(Slot::Tcp), expect: expect[2].clone(), family: sc.tcp.family(), code: sc.tcp.code() });
@@ -1028,14 +1278,46 @@ fn judge_matrix(ctx: &Ctx, sc: &Scenario, obs: &Observed) {
     if sc.class.tcp_only() && obs.log.iter().any(|e| e.slot != Slot::Tcp) {
         ctx.violation("C13|fallback|tcp-only-endpoint-contacted-tact", "a TCP-only endpoint caused an HTTP request", detail(json!({})));
     }
+    // a protocol whose URL is empty is not permitted: its mock must never see a request
+    for slot in [Slot::Https, Slot::Http] {
+        if !sc.permits(slot) && obs.log.iter().any(|e| e.slot == slot) {
+            ctx.violation(&format!("C13|fallback|contacted-protocol-that-is-not-permitted|{}", slot.name()), "a protocol that the configuration does not permit was contacted", detail(json!({})));
+        }
+    }
     if let Some((sig, summary)) = judge_chain(&eps, &obs.result) {
+        // same decision table; the configuration class is part of the signature only when it is not the default chain
+        let sig = if sc.opt.permit == 3 || sc.class.tcp_only() { sig } else { format!("{sig}|chain-{}", match sc.opt.permit { 1 => "https+tcp", 2 => "http+tcp", _ => "tcp-only-config" }) };
+        let sig = if sc.opt.poison { format!("{sig}|unparseable-bytes-in-cache") } else { sig };
         ctx.violation(&sig, &summary, detail(json!({})));
+    }
+    ctx.obs(&format!("config.chain.{}", if sc.class.tcp_only() { "tcp-only-endpoint" } else { match sc.opt.permit { 3 => "https+http+tcp", 1 => "https+tcp", 2 => "http+tcp", _ => "tcp" } }), 1);
+    ctx.obs(if sc.opt.bare_ribbit { "config.ribbit_url.host:port" } else { "config.ribbit_url.tcp://host:port" }, 1);
+    ctx.obs(&format!("endpoint.variant.{}", sc.opt.epv), 1);
+    if sc.opt.poison {
+        ctx.obs("cache.preloaded_with_unparseable_bytes", 1);
     }
     // what got cached
     let first_failure = eps.iter().find(|e| e.class != Class::Good).map_or("none".to_string(), |e| e.family.clone());
+    // nothing at all may be added to the cache by a failed query (whatever key it would use)
+    if let QR::Err(_) = &obs.result {
+        if let (Some(b), Some(a)) = obs.cache_len {
+            ctx.obs("cache.after_failed_query.len_compared", 1);
+            if a > b {
+                ctx.violation(&format!("C13|cache|cache-grew-after-failed-query|{cache_kind}"), "ProtocolCache::len grew although the query failed", detail(json!({"len_before": b, "len_after": a, "first_failure": first_failure})));
+            }
+        }
+        if let Some((b, a)) = obs.cache_files {
+            ctx.obs("cache.after_failed_query.files_compared", 1);
+            if a > b {
+                ctx.violation("C13|cache|file-added-to-cache-directory-after-failed-query|disk", "a file appeared below the cache directory although the query failed", detail(json!({"files_before": b, "files_after": a, "first_failure": first_failure})));
+            }
+        }
+    }
     match (&obs.result, &obs.cached_after) {
         (_, CacheState::Error(e)) => ctx.obs(&format!("cache.inspect_error.{}", e.chars().take(40).collect::<String>()), 1),
         (QR::Err(_), CacheState::Absent) => ctx.obs("cache.after_failed_query.absent", 1),
+        // the harness itself put these bytes there before the query
+        (QR::Err(_), CacheState::Unparseable(n)) if sc.opt.poison && *n == POISON.len() => ctx.obs("cache.after_failed_query.preloaded_bytes_still_there", 1),
         (QR::Err(_), _) => ctx.violation(&format!("C13|cache|entry-present-after-failed-query|{cache_kind}"), "the cache holds an entry for the endpoint although the query failed", detail(json!({"first_failure": first_failure}))),
         (QR::Ok(p), CacheState::Holds(c)) if p == c => ctx.obs("cache.after_ok.holds_returned_answer", 1),
         (QR::Ok(_), CacheState::Holds(_)) => ctx.violation(&format!("C13|cache|cached-answer-differs-from-returned-answer|{cache_kind}"), "the cached document is not the answer that was returned", detail(json!({}))),
@@ -1125,6 +1407,47 @@ fn judge_split(ctx: &Ctx, sc: &Scenario, obs: &Observed) {
     if sc.class.tcp_only() && obs.log.iter().any(|e| e.slot != Slot::Tcp) {
         ctx.violation("C13|fallback|tcp-only-endpoint-contacted-tact", "a TCP-only endpoint caused an HTTP request", detail());
     }
+    // the same response (same segmentation) read through a RibbitClient entry point directly
+    if let Some(d) = &obs.direct {
+        let body = sc.tcp.family();
+        let ddetail = |got: String| {
+            let mut v = detail();
+            v["direct_entry_point_result"] = json!(got.chars().take(400).collect::<String>());
+            v
+        };
+        match d {
+            Direct::Panic(name, msg) => ctx.violation(&format!("C13|RibbitClient::{name}|panic"), "a RibbitClient entry point panicked", ddetail(msg.clone())),
+            Direct::Doc(name, r) => {
+                ctx.obs(&format!("direct.{name}"), 1);
+                match (&expect, r) {
+                    (Some(p), QR::Ok(q)) if p == q => ctx.obs("direct.doc_equals_unsplit_parse", 1),
+                    (None, QR::Err(_)) => ctx.obs("direct.err_equals_unsplit_parse", 1),
+                    (Some(_), QR::Ok(q)) => ctx.violation(&format!("C13|RibbitClient::{name}|answer-depends-on-segmentation|{body}|different-document"), "the document returned by the entry point differs from the parse of the unsplit response bytes", ddetail(q.clone())),
+                    (Some(_), other) => ctx.violation(&format!("C13|RibbitClient::{name}|answer-depends-on-segmentation|{body}|err-instead-of-ok"), "the entry point failed although the unsplit bytes parse", ddetail(other.short())),
+                    (None, other) => ctx.violation(&format!("C13|RibbitClient::{name}|answer-depends-on-segmentation|{body}|ok-instead-of-err"), "the entry point returned a document although the unsplit bytes do not parse", ddetail(other.short())),
+                }
+            }
+            // the raw entry points hand out the bytes of the response: exactly what the server wrote, however it was split
+            Direct::Raw(r) => {
+                ctx.obs("direct.query_raw", 1);
+                match r {
+                    Ok(b) if *b == payload => ctx.obs("direct.raw_bytes_equal_response", 1),
+                    Ok(b) => ctx.violation(&format!("C13|RibbitClient::query_raw|bytes-differ-from-the-response-sent|{body}|{}", if b.len() < payload.len() && payload.starts_with(b) { "truncated" } else { "different" }), "query_raw returned other bytes than the server wrote before closing", ddetail(format!("{} bytes: {}", b.len(), String::from_utf8_lossy(b)))),
+                    Err(e) => ctx.violation(&format!("C13|RibbitClient::query_raw|err-although-the-server-answered-and-closed|{body}"), "query_raw failed although the server wrote a response and closed the connection", ddetail(e.clone())),
+                }
+            }
+            Direct::Text(r) => {
+                ctx.obs("direct.query_tcp_only", 1);
+                let want = String::from_utf8(payload.clone()).ok();
+                match (want, r) {
+                    (Some(w), Ok(t)) if w == *t => ctx.obs("direct.text_equals_response", 1),
+                    (Some(w), Ok(t)) => ctx.violation(&format!("C13|RibbitClient::query_tcp_only|text-differs-from-the-response-sent|{body}|{}", if w.starts_with(t.as_str()) { "truncated" } else { "different" }), "query_tcp_only returned other text than the server wrote before closing", ddetail(t.clone())),
+                    (Some(_), Err(e)) => ctx.violation(&format!("C13|RibbitClient::query_tcp_only|err-although-the-server-answered-and-closed|{body}"), "query_tcp_only failed although the server wrote a UTF-8 response and closed the connection", ddetail(e.clone())),
+                    (None, _) => ctx.obs("direct.text_payload_not_utf8(not judged)", 1),
+                }
+            }
+        }
+    }
 }
 
 fn split_scenarios(ctx: &Ctx, rng: &mut Rng, uniq: &mut u64) -> Vec<Scenario> {
@@ -1145,6 +1468,15 @@ fn split_scenarios(ctx: &Ctx, rng: &mut Rng, uniq: &mut u64) -> Vec<Scenario> {
     for v in 0..3 {
         bodies.push((EpClass::Summary, TcpBeh::Malformed(v), 2));
     }
+    // other V1 layouts (no / unterminated / non-checksum epilogue, multipart/mixed, text signature, no signature) and
+    // V1 envelopes without a usable data part, on the TCP-only classes incl. ocsp
+    for v in 0..V1_GOOD_VARIANTS.len() as u8 {
+        bodies.push(([EpClass::Summary, EpClass::Ocsp, EpClass::Certs][v as usize % 3], TcpBeh::V1Layout(v % 2 == 0, v), 2));
+    }
+    for v in 0..V1_BAD_VARIANTS.len() as u8 {
+        bodies.push((EpClass::Ocsp, TcpBeh::MalformedV1(v), 2));
+    }
+    let mut direct_rot: u64 = ctx.seed % 4;
     for (class, beh, rows) in bodies {
         *uniq += 1;
         let u = *uniq;
@@ -1190,7 +1522,8 @@ fn split_scenarios(ctx: &Ctx, rng: &mut Rng, uniq: &mut u64) -> Vec<Scenario> {
             "max_segments": cut_sets.iter().map(|c| c.len() + 1).max().unwrap_or(1),
         }));
         for cuts in cut_sets {
-            out.push(Scenario { class, https: HttpBeh::Refused, http: HttpBeh::Refused, tcp: beh.clone(), splits: cuts, uniq: u, disk: false, rows });
+            direct_rot += 1;
+            out.push(Scenario { class, https: HttpBeh::Refused, http: HttpBeh::Refused, tcp: beh.clone(), splits: cuts, uniq: u, disk: false, rows, opt: Opt { direct: 1 + (direct_rot % 4) as u8, bare_ribbit: direct_rot % 3 == 0, ..Opt::default() } });
         }
     }
     // slow segments: the same answer with a pause of 2.6 s (thorough also 5.2 s) between two segments — packets of one
@@ -1212,7 +1545,7 @@ fn split_scenarios(ctx: &Ctx, rng: &mut Rng, uniq: &mut u64) -> Vec<Scenario> {
             let inter = interesting_cuts(&payload);
             // cut at a line boundary in the second half, so that the first part alone is a parseable document
             let cut = inter.iter().copied().filter(|&c| c > payload.len() / 2 && c < payload.len()).min().unwrap_or(payload.len() / 2);
-            out.push(Scenario { class, https: HttpBeh::Refused, http: HttpBeh::Refused, tcp: beh.clone(), splits: vec![cut, SLOW_GAP_BASE + gap], uniq: u, disk: false, rows });
+            out.push(Scenario { class, https: HttpBeh::Refused, http: HttpBeh::Refused, tcp: beh.clone(), splits: vec![cut, SLOW_GAP_BASE + gap], uniq: u, disk: false, rows, opt: Opt::default() });
             ctx.obs("split.slow_segment_scenarios", 1);
         }
     }
@@ -1271,7 +1604,7 @@ async fn run_cache_scenario(mode: CacheMode, via: Via, class: EpClass, uniq: u64
         Via::TcpV1AfterRefused => (HttpBeh::Refused, HttpBeh::Refused, TcpBeh::ValidV1(true, Shape::Plain)),
         Via::TcpV2 => (HttpBeh::Refused, HttpBeh::Refused, TcpBeh::ValidV2(Shape::Plain)),
     };
-    let sc = Scenario { class, https, http, tcp, splits: vec![], uniq, disk: mode != CacheMode::Memory, rows: 3 };
+    let sc = Scenario { class, https, http, tcp, splits: vec![], uniq, disk: mode != CacheMode::Memory, rows: 3, opt: Opt::default() };
     let dir = if sc.disk { Some(tempfile::tempdir().map_err(|e| format!("harness: tempdir: {e}"))?) } else { None };
     let rig = build_rig(&sc, TTL, dir.as_ref().map(|d| d.path().to_path_buf())).await?;
     let answering = if class.tcp_only() {
@@ -1383,7 +1716,7 @@ async fn run_sliding_scenario(mode: CacheMode, via: Via, class: EpClass, uniq: u
         Via::TcpV1AfterRefused => (HttpBeh::Refused, HttpBeh::Refused, TcpBeh::ValidV1(true, Shape::Plain)),
         Via::TcpV2 => (HttpBeh::Refused, HttpBeh::Refused, TcpBeh::ValidV2(Shape::Plain)),
     };
-    let sc = Scenario { class, https, http, tcp, splits: vec![], uniq, disk: mode != CacheMode::Memory, rows: 3 };
+    let sc = Scenario { class, https, http, tcp, splits: vec![], uniq, disk: mode != CacheMode::Memory, rows: 3, opt: Opt::default() };
     let dir = if sc.disk { Some(tempfile::tempdir().map_err(|e| format!("harness: tempdir: {e}"))?) } else { None };
     let rig = build_rig(&sc, TTL_LONG, dir.as_ref().map(|d| d.path().to_path_buf())).await?;
     let answering = if class.tcp_only() {
@@ -1517,10 +1850,10 @@ fn judge_cache(ctx: &Ctx, mode: CacheMode, via: Via, class: EpClass, obs: &Cache
 fn http_families() -> Vec<Vec<HttpBeh>> {
     vec![
         vec![HttpBeh::Valid(Shape::Plain), HttpBeh::Valid(Shape::InteriorBlank)],
-        vec![HttpBeh::Status(500, None), HttpBeh::Status(502, None), HttpBeh::Status(503, None), HttpBeh::Status(504, None)],
+        vec![HttpBeh::Status(500, None), HttpBeh::Status(502, None), HttpBeh::Status(503, None), HttpBeh::Status(504, None), HttpBeh::Status(501, None), HttpBeh::Status(507, None), HttpBeh::Status(599, None)],
         vec![HttpBeh::Status(429, None), HttpBeh::Status(429, Some(1)), HttpBeh::Status(429, Some(3600))],
-        vec![HttpBeh::Status(400, None), HttpBeh::Status(403, None), HttpBeh::Status(404, None)],
-        vec![HttpBeh::Malformed(0), HttpBeh::Malformed(1), HttpBeh::Malformed(2)],
+        vec![HttpBeh::Status(400, None), HttpBeh::Status(403, None), HttpBeh::Status(404, None), HttpBeh::Status(401, None), HttpBeh::Status(408, None), HttpBeh::Status(410, None), HttpBeh::Status(451, None)],
+        vec![HttpBeh::Malformed(0), HttpBeh::Malformed(1), HttpBeh::Malformed(2), HttpBeh::Garbled(0), HttpBeh::Garbled(1)],
         vec![HttpBeh::Refused],
         vec![HttpBeh::CloseBeforeHeaders, HttpBeh::CloseMidBody, HttpBeh::ResetMidBody],
     ]
@@ -1529,9 +1862,9 @@ fn http_families() -> Vec<Vec<HttpBeh>> {
 fn tcp_families() -> Vec<Vec<TcpBeh>> {
     vec![
         vec![TcpBeh::ValidV2(Shape::Plain), TcpBeh::ValidV2(Shape::InteriorBlank), TcpBeh::ValidV2(Shape::TrailingBlank)],
-        vec![TcpBeh::ValidV1(true, Shape::Plain), TcpBeh::ValidV1(false, Shape::Plain), TcpBeh::ValidV1(true, Shape::InteriorBlank)],
+        vec![TcpBeh::ValidV1(true, Shape::Plain), TcpBeh::ValidV1(false, Shape::Plain), TcpBeh::ValidV1(true, Shape::InteriorBlank), TcpBeh::V1Layout(true, 0), TcpBeh::V1Layout(false, 1), TcpBeh::V1Layout(true, 2), TcpBeh::V1Layout(false, 3), TcpBeh::V1Layout(true, 4), TcpBeh::V1Layout(false, 5), TcpBeh::V1Layout(true, 6), TcpBeh::V1Layout(false, 7)],
         vec![TcpBeh::BadChecksum],
-        vec![TcpBeh::Malformed(0), TcpBeh::Malformed(1), TcpBeh::Malformed(2)],
+        vec![TcpBeh::Malformed(0), TcpBeh::Malformed(1), TcpBeh::Malformed(2), TcpBeh::MalformedV1(0), TcpBeh::MalformedV1(1)],
         vec![TcpBeh::Refused],
         vec![TcpBeh::CloseMid, TcpBeh::ResetMid],
     ]
@@ -1555,44 +1888,67 @@ fn matrix_scenarios(ctx: &Ctx, rng: &mut Rng, uniq: &mut u64) -> Vec<Scenario> {
     let tf = tcp_families();
     let mut out = Vec::new();
     let classes = [EpClass::Versions, EpClass::Cdns, EpClass::Bgdl];
-    let mut push = |rng: &mut Rng, class: EpClass, https: HttpBeh, http: HttpBeh, tcp: TcpBeh| {
+    let mut push = |rng: &mut Rng, class: EpClass, permit: u8, https: HttpBeh, http: HttpBeh, tcp: TcpBeh| {
         *uniq += 1;
-        let mut sc = Scenario { class, https, http, tcp, splits: vec![], uniq: *uniq, disk: rng.chance(1, 4), rows: rng.urange(1, 5) };
+        // configuration dimensions drawn per scenario: endpoint spelling, ribbit_url spelling, unparseable bytes already in the cache
+        let opt = Opt { permit, bare_ribbit: rng.chance(1, 3), epv: rng.urange(0, 4) as u8, poison: rng.chance(1, 6), direct: 0 };
+        let mut sc = Scenario { class, https, http, tcp, splits: vec![], uniq: *uniq, disk: rng.chance(1, 4), rows: rng.urange(1, 5), opt };
         sc.splits = random_splits(rng, &sc);
         out.push(sc);
     };
-    if ctx.quick() {
-        // every assignment of behaviour families (7 x 7 x 6) x endpoint class, variant drawn from the seed
-        for class in classes {
-            for a in &hf {
-                for b in &hf {
-                    for c in &tf {
-                        let (x, y, z) = (rng.pick(a).clone(), rng.pick(b).clone(), rng.pick(c).clone());
-                        push(rng, class, x, y, z);
-                    }
+    // every assignment of behaviour families (7 x 7 x 6) x endpoint class, variant drawn from the seed
+    for class in classes {
+        for a in &hf {
+            for b in &hf {
+                for c in &tf {
+                    let (x, y, z) = (rng.pick(a).clone(), rng.pick(b).clone(), rng.pick(c).clone());
+                    push(rng, class, 3, x, y, z);
                 }
             }
         }
-    } else {
-        // every assignment of behaviour VARIANTS x endpoint class
+    }
+    if !ctx.quick() {
+        // every assignment of behaviour VARIANTS, endpoint classes in rotation
         let hv: Vec<HttpBeh> = hf.iter().flatten().cloned().collect();
         let tv: Vec<TcpBeh> = tf.iter().flatten().cloned().collect();
-        for class in classes {
-            for a in &hv {
-                for b in &hv {
-                    for c in &tv {
-                        push(rng, class, a.clone(), b.clone(), c.clone());
-                    }
+        let mut k = 0usize;
+        for a in &hv {
+            for b in &hv {
+                for c in &tv {
+                    k += 1;
+                    push(rng, classes[k % 3], 3, a.clone(), b.clone(), c.clone());
                 }
+            }
+        }
+    }
+    // configurations that permit fewer protocols (empty TACT URL): https+tcp, http+tcp, tcp alone.
+    // The mock of the protocol that is not permitted would answer well-formed, but must never be asked.
+    let reps = ctx.pick(1, 4);
+    let mut k = 0usize;
+    for _ in 0..reps {
+        for a in &hf {
+            for c in &tf {
+                for permit in [1u8, 2u8] {
+                    k += 1;
+                    let (x, z) = (rng.pick(a).clone(), rng.pick(c).clone());
+                    let other = HttpBeh::Valid(Shape::Plain);
+                    if permit == 1 { push(rng, classes[k % 3], permit, x, other, z) } else { push(rng, classes[k % 3], permit, other, x, z) }
+                }
+            }
+        }
+        for c in &tf {
+            for class in classes {
+                let z = rng.pick(c).clone();
+                push(rng, class, 0, HttpBeh::Valid(Shape::Plain), HttpBeh::Valid(Shape::InteriorBlank), z);
             }
         }
     }
     // TCP-only endpoints: the TACT mocks would answer, but must never be asked
     let tv: Vec<TcpBeh> = tf.iter().flatten().cloned().collect();
-    for class in [EpClass::Summary, EpClass::Certs] {
+    for class in [EpClass::Summary, EpClass::Certs, EpClass::Ocsp] {
         for c in &tv {
             for https in [HttpBeh::Valid(Shape::Plain), HttpBeh::Status(404, None)] {
-                push(rng, class, https, HttpBeh::Valid(Shape::Plain), c.clone());
+                push(rng, class, 3, https, HttpBeh::Valid(Shape::Plain), c.clone());
             }
         }
     }
@@ -1616,14 +1972,14 @@ fn stall_scenarios(uniq: &mut u64) -> Vec<Scenario> {
     list.into_iter()
         .map(|(class, https, http, tcp)| {
             *uniq += 1;
-            Scenario { class, https, http, tcp, splits: vec![], uniq: *uniq, disk: false, rows: 2 }
+            Scenario { class, https, http, tcp, splits: vec![], uniq: *uniq, disk: false, rows: 2, opt: Opt::default() }
         })
         .collect()
 }
 
 /// The harness' own payloads must be what they claim to be (reference parse).
 fn self_check() -> Result<(), String> {
-    for class in [EpClass::Versions, EpClass::Cdns, EpClass::Bgdl, EpClass::Summary, EpClass::Certs] {
+    for class in ALL_CLASSES {
         let base = ref_http(bpsv_text(class, Slot::Http, 5, 0, Shape::Plain, 3).as_bytes()).ok_or("plain document does not parse")?;
         for sh in SHAPES {
             let t = bpsv_text(class, Slot::Http, 5, 0, sh, 3);
@@ -1643,6 +1999,20 @@ fn self_check() -> Result<(), String> {
         }
         if ref_tcp(&v1_mime(&bpsv_text(class, Slot::Tcp, 5, 0, Shape::Plain, 3), class, 5, true, false)).is_some() {
             return Err("bad checksum accepted by the reference".into());
+        }
+        let tcp_plain = ref_tcp(bpsv_text(class, Slot::Tcp, 5, 0, Shape::Plain, 3).as_bytes());
+        for crlf in [true, false] {
+            for v in 0..V1_GOOD_VARIANTS.len() as u8 {
+                let m = tcp_payload(&TcpBeh::V1Layout(crlf, v), class, 5, 0, 3);
+                if !is_v1_mime_response(&m) || ref_tcp(&m) != tcp_plain {
+                    return Err(format!("V1 layout variant {:?} (crlf={crlf}) of {} does not parse to the wrapped document", V1_GOOD_VARIANTS[v as usize], class.name()));
+                }
+            }
+        }
+        for v in 0..V1_BAD_VARIANTS.len() as u8 * 2 {
+            if ref_tcp(&tcp_payload(&TcpBeh::MalformedV1(v), class, 5, 0, 3)).is_some() {
+                return Err(format!("malformed V1 variant {v} parses"));
+            }
         }
         for b in [TcpBeh::CloseMid, TcpBeh::ResetMid, TcpBeh::Stall] {
             if ref_tcp(&tcp_payload(&b, class, 5, 0, 3)).is_some() {
@@ -1685,6 +2055,8 @@ async fn run_with_watchdog(sc: &Scenario) -> Result<Observed, String> {
 }
 
 fn main() {
+    // the configuration-from-environment case needs its ports in the environment before any thread exists
+    let mut env_rig = ext::EnvRig::prepare();
     let ctx = Arc::new(Ctx::init("C13", "fault_enumeration"));
     ctx.set_rule("a case is one query history against three loopback mocks: (endpoint class, behaviour of HTTPS slot, HTTP slot, Ribbit TCP, TCP segment boundaries, cache kind); quick enumerates every assignment of behaviour families (7x7x6) x {versions,cdns,bgdl} with seeded variants, thorough every assignment of behaviour variants; plus TCP-only classes, segmentation runs (parse of split response == parse of unsplit bytes) and cache-expiry histories (TTL 450 ms, judged only < TTL/3 or > 3 TTL); non-trivial = at least one endpoint fails / a segmentation with >= 2 segments / a cache history; distinct by hash of the scenario description");
     ctx.assume("the mocks' request logs are complete: every connection that sent at least one byte is logged with a per-scenario sequence number before any response byte is written");
@@ -1825,6 +2197,82 @@ fn main() {
         }
     }
 
+    // ---- CDN download histories (cache-then-fetch-then-store), real time as well
+    ext::cdn_section(&ctx, &rt, &mut uniq);
+
+    // ---- ProtocolCache::clear between queries, configuration from the environment, malformed endpoints, oversized response
+    {
+        let cases = [(false, EpClass::Versions), (true, EpClass::Cdns), (false, EpClass::Summary), (true, EpClass::Ocsp)];
+        let handles: Vec<_> = cases
+            .iter()
+            .map(|&(disk, class)| {
+                uniq += 1;
+                let u = uniq;
+                rt.spawn(async move { (disk, class, tokio::time::timeout(Duration::from_secs(60), ext::run_clear_case(disk, class, u)).await) })
+            })
+            .collect();
+        for h in handles {
+            match rt.block_on(h) {
+                Ok((disk, class, Ok(Ok(o)))) => {
+                    ctx.eval_nontrivial(mix64(fnv64(b"clear"), fnv64(format!("{disk}{class:?}").as_bytes())));
+                    ext::judge_clear(&ctx, disk, class, &o);
+                }
+                Ok((_, _, Ok(Err(e)))) => ctx.inconclusive(&format!("clear history: {e}")),
+                Ok((_, _, Err(_))) => ctx.inconclusive("clear history: watchdog (60 s)"),
+                Err(_) => ctx.inconclusive("clear history task failed"),
+            }
+        }
+        match env_rig.as_mut() {
+            None => ctx.inconclusive("harness: could not bind the listeners for the from_env configuration"),
+            Some(er) => {
+                if let Err(e) = &er.cfg {
+                    // the environment holds three well-formed URLs and three integer TTLs: a refusal is a failed query before it started
+                    ctx.violation("C13|fallback|first-endpoint-https-never-contacted|config-from-env", "ClientConfig::from_env refused an environment with three well-formed URLs", json!({"error": e}));
+                } else {
+                    uniq += 3;
+                    match rt.block_on(async { tokio::time::timeout(Duration::from_secs(60), ext::run_env_case(er, uniq - 2)).await }) {
+                        Ok(Ok(o)) => {
+                            ctx.eval_nontrivial(mix64(fnv64(b"from-env"), 1));
+                            ext::judge_env(&ctx, &o);
+                        }
+                        Ok(Err(e)) => ctx.inconclusive(&format!("from_env case: {e}")),
+                        Err(_) => ctx.inconclusive("from_env case: watchdog (60 s)"),
+                    }
+                }
+            }
+        }
+        uniq += 1;
+        match rt.block_on(async { tokio::time::timeout(Duration::from_secs(90), ext::run_invalid_endpoints(uniq)).await }) {
+            Ok(Ok((sc, obs, empty))) => {
+                ctx.eval_nontrivial(mix64(fnv64(b"invalid-endpoints"), 1));
+                ext::judge_invalid(&ctx, &sc, &obs, empty);
+            }
+            Ok(Err(e)) => ctx.inconclusive(&format!("malformed-endpoint case: {e}")),
+            Err(_) => ctx.inconclusive("malformed-endpoint case: watchdog (90 s)"),
+        }
+        uniq += 1;
+        match rt.block_on(ext::run_huge(uniq)) {
+            Ok(o) => {
+                ctx.eval_nontrivial(mix64(fnv64(b"oversized"), 1));
+                ext::judge_huge(&ctx, &o);
+            }
+            Err(e) => ctx.inconclusive(&format!("oversized-response case: {e}")),
+        }
+        uniq += 1;
+        ext::sync_context_case(&ctx, &rt, uniq);
+        uniq += 1;
+        match rt.block_on(async { tokio::time::timeout(Duration::from_secs(60), ext::run_default_port(uniq)).await }) {
+            Ok(Ok(Some((sc, r, log)))) => {
+                ctx.eval_nontrivial(mix64(fnv64(b"default-port"), 1));
+                ext::judge_default_port(&ctx, &sc, &r, &log);
+            }
+            // 127.0.0.1:1119 is taken by another process (e.g. a second instance of this check): not judged
+            Ok(Ok(None)) => ctx.obs("config.ribbit_url.without_port(skipped: 127.0.0.1:1119 in use)", 1),
+            Ok(Err(e)) => ctx.inconclusive(&format!("default-port case: {e}")),
+            Err(_) => ctx.inconclusive("default-port case: watchdog (60 s)"),
+        }
+    }
+
     // ---- stall scenarios (thorough): started now, collected at the end
     let stall_handles: Vec<_> = if ctx.quick() {
         Vec::new()
@@ -1926,6 +2374,18 @@ fn main() {
     for k in ["cache.judged.before-expiry.memory.same-client", "cache.judged.after-expiry.memory.same-client", "cache.judged.before-expiry.disk.same-client", "cache.judged.after-expiry.disk.same-client", "cache.judged.before-expiry.disk.new-client", "cache.judged.after-expiry.disk.new-client"] {
         if ctx.get_obs(k) == 0 {
             ctx.inconclusive(&format!("cache phase never judged: {k}"));
+        }
+    }
+    for k in [
+        "cdn.judged.inside-ttl.memory.same-client", "cdn.judged.inside-ttl.disk.same-client", "cdn.judged.inside-ttl.disk.new-client", "cdn.judged.other-key", "cdn.judged.other-type",
+        "cdn.judged.after-expiry.memory.same-client", "cdn.judged.after-expiry.disk.same-client", "cdn.judged.after-expiry.disk.new-client",
+        "cdn.judged.failing-server.4xx", "cdn.judged.failing-server.5xx", "cdn.judged.failing-server.closed-mid-body", "cdn.entry_point.download_archive_index", "cdn.endpoint_from_bpsv_row",
+        "clear.ok", "config.from_env.queries", "endpoint.invalid.queries", "oversized_response.runs", "cache.sync_context.store_then_query", "cache.sync_context.query_then_get",
+        "direct.query", "direct.query_v1_mime", "direct.query_raw", "direct.query_tcp_only",
+        "config.chain.https+tcp", "config.chain.http+tcp", "config.chain.tcp", "config.ribbit_url.host:port", "cache.preloaded_with_unparseable_bytes", "cache.after_failed_query.len_compared", "cache.after_failed_query.files_compared",
+    ] {
+        if ctx.get_obs(k) == 0 {
+            ctx.inconclusive(&format!("a sub-workload the verdict relies on never ran or was never judged: {k}"));
         }
     }
     rt.shutdown_timeout(Duration::from_secs(2));
